@@ -122,7 +122,7 @@ register("C17",
          "Lenient readings stated: trailing window = the RANGE the code declares (t-N..t), offsets that do not divide the period are the code's documented approximations; only day-unit windows are modelled. No axioms.",
          "Coq proof (sorted-partition / frame lemmas, gap-free LAG induction, aggregate permutation invariance) + regenerated offset table; model/implementation correspondence on generated series", "DESIGN.md section 6/C17")
 
-register("C08",
+register("C08 Also regenerated: what _try_use_preaggregation asks the matcher and re-checks on 814 scripted scenarios (C08_route_table); C08_all_granularities: for ANY routed query every requested granularity is the one the matcher was asked about or one the matched rollup serves (the proof-side form of the repair cad981a); C08_route_asks.",
          "Machine-checked Coq theorems for tables of ANY size, any truncation function and ANY predicate on the rollup key (membership in a result group and every filter over rollup columns are such predicates): "
          "re-aggregating the rollup built by the materialisation statement equals aggregating the base rows for SUM, COUNT (as SUM of counts), MIN and MAX, and the routed query has a group exactly when the base query has (C08_sum/count/min/max/groups); "
          "rolling the time bucket up to a coarser granularity is exact for nested pairs for every timestamp (C08_granularity) and the code's granularity test only admits nested pairs; "
